@@ -450,13 +450,24 @@ type c10spec struct {
 	nf     bool   // File.NoFormat
 	target string // save: target kind
 	warmup bool   // a File.Render (no fault) before the operation under test
+	wshape string // writer entries: the writer's behaviour (hist.Op.WFault, c10_rich.go); "" = wfault alone decides
+	large  bool   // tree rich: 400..1600 declarations
 }
 
 func (p *c10) build(r *rand.Rand, s c10spec, stream string) *Case {
 	paths := somePaths(r, 4)
-	g := &Gen{R: r, Paths: paths, MaxDepth: 2 + r.Intn(2), NilRate: 8, NoBad: s.tree != "random"}
+	g := &Gen{R: r, Paths: paths, MaxDepth: 2 + r.Intn(2), NilRate: 8, NoBad: s.tree != "random" && s.tree != "random-rich"}
 	h, _ := FileSetup(r, 0, SetupOpts{Paths: paths})
 	info := &c10info{tree: s.tree}
+	var moreTags []string
+	if strings.Contains(s.tree, "rich") {
+		var hs hist.History
+		hs, moreTags = c10RichSettings(r, 0)
+		h = append(h, hs...)
+		if s.large {
+			moreTags = append(moreTags, "size=large")
+		}
+	}
 	fileRole := s.entry == "render" || s.entry == "save"
 
 	// the tree under test
@@ -483,6 +494,29 @@ func (p *c10) build(r *rand.Rand, s c10spec, stream string) *Case {
 			}
 		}
 	case "niltarget":
+	case "empty": // a fragment that renders to nothing: the one Write carries no byte
+		sts = []*term.Stmt{term.S()}
+	case "rich", "rich-invalid":
+		sts = c10RichStmts(r, g, !strings.HasSuffix(s.entry, "-group"), s.large)
+		if s.tree == "rich-invalid" {
+			ins := c10Broken(r)
+			if fileRole && r.Intn(4) == 0 {
+				ins = c10FileOnlyBroken(r)
+			}
+			k := len(sts)
+			if r.Intn(3) == 0 {
+				k = r.Intn(len(sts) + 1)
+			}
+			sts = append(sts[:k:k], append([]*term.Stmt{ins}, sts[k:]...)...)
+		}
+	case "random-rich":
+		for j := 0; j < 1+r.Intn(3); j++ {
+			sts = append(sts, g.Stmt(0))
+		}
+		seen := map[*term.Stmt]bool{}
+		for _, st := range sts {
+			c10Sprinkle(r, st, seen)
+		}
 	default:
 		sts = c10Stmts(r, g, s.tree, fileRole, !strings.HasSuffix(s.entry, "-group")) // no func declaration inside a block
 	}
@@ -505,10 +539,10 @@ func (p *c10) build(r *rand.Rand, s c10spec, stream string) *Case {
 		h = append(h, hist.Op{Kind: "render", F: 0})
 	}
 
-	tags := []string{"entry=" + s.entry, "tree=" + s.tree, fmt.Sprintf("noformat=%v", s.nf)}
+	tags := append([]string{"entry=" + s.entry, "tree=" + s.tree, fmt.Sprintf("noformat=%v", s.nf)}, moreTags...)
 	var causes []string
 	formats := !fileRole || !s.nf // the entry point runs gofmt on the tree under test
-	if s.tree == "invalid" && formats {
+	if (s.tree == "invalid" || s.tree == "rich-invalid") && formats {
 		causes = append(causes, "fmterr")
 	}
 	if info.badlit || s.tree == "niltarget" {
@@ -517,7 +551,7 @@ func (p *c10) build(r *rand.Rand, s c10spec, stream string) *Case {
 	meta := map[string]interface{}{"c10": info}
 	switch s.entry {
 	case "render":
-		h = append(h, hist.Op{Kind: "render", F: 0, Flag: s.wfault})
+		h = append(h, hist.Op{Kind: "render", F: 0, Flag: s.wfault || c10ShapeFails(s.wshape), WFault: s.wshape})
 	case "save":
 		p.fixtures(s.target, info)
 		sym := c10TargetSym(s.target)
@@ -553,11 +587,15 @@ func (p *c10) build(r *rand.Rand, s c10spec, stream string) *Case {
 		default:
 			code = c10GroupTarget(r, s.tree, sts)
 		}
-		h = append(h, hist.Op{Kind: kind, F: 0, Code: code, Flag: s.wfault})
+		h = append(h, hist.Op{Kind: kind, F: 0, Code: code, Flag: s.wfault || c10ShapeFails(s.wshape), WFault: s.wshape})
 	}
 	if s.entry != "save" {
-		tags = append(tags, fmt.Sprintf("wfault=%v", s.wfault))
-		if s.wfault {
+		if s.wshape != "" {
+			tags = append(tags, "wfault="+s.wshape)
+		} else {
+			tags = append(tags, fmt.Sprintf("wfault=%v", s.wfault))
+		}
+		if s.wfault || c10ShapeFails(s.wshape) {
 			causes = append(causes, "wfault")
 		}
 	}
@@ -630,6 +668,9 @@ func (p *c10) Generate(r *rand.Rand, t string) []*Case {
 		}
 	}
 	out = append(out, p.saveWriteFails(r, t)...)
+	// c10_rich.go
+	out = append(out, p.richContent(r, t)...)
+	out = append(out, p.writerShapes(r, t)...)
 	return out
 }
 
@@ -1042,6 +1083,7 @@ func c10Min(a, b int) int {
 // of Write calls the model's outcome stands for: OWrite is exactly one call, OPanic and
 // OFormatErr are none (coq/Model/FileRender.v).  Nothing is projected away.
 func (p *c10) Compare(c *Case, exp, got []hist.Obs) string {
+	got = c10ShortNil(c.Hist, got)
 	if d := CompareAll(exp, got); d != "" {
 		return d
 	}
@@ -1063,6 +1105,37 @@ func (p *c10) Compare(c *Case, exp, got []hist.Obs) string {
 	return ""
 }
 
+// c10ShortNil: the model knows writers that fail or do not fail.  For a writer of shape short-nil
+// (it takes less than it is given and reports no error) the model's answer is the one for a
+// writer that does not fail; it is compared with what the writer was OFFERED in the first call,
+// whether the implementation then returned nil or io.ErrShortWrite (the oracle decides the rest).
+func c10ShortNil(h hist.History, got []hist.Obs) []hist.Obs {
+	var out []hist.Obs
+	oi := 0
+	for _, op := range h {
+		switch op.Kind {
+		case "render", "rcode", "rplain", "save", "imports":
+		default:
+			continue
+		}
+		if oi >= len(got) {
+			break
+		}
+		if op.WFault == "short-nil" && got[oi].Kind == "write" && !got[oi].Failed && len(got[oi].Offered) > 0 {
+			if out == nil {
+				out = append([]hist.Obs{}, got...)
+			}
+			out[oi].Out = got[oi].Offered[0]
+			out[oi].Writes = 1
+		}
+		oi++
+	}
+	if out == nil {
+		return got
+	}
+	return out
+}
+
 // c10Twin re-executes h[:i] and then operation i with a writer that does not fail, in a
 // fresh World that never touches the file system (every save becomes a File.Render into a
 // buffer).  forceRaw switches NoFormat on just before operation i.
@@ -1071,11 +1144,20 @@ func (p *c10) Compare(c *Case, exp, got []hist.Obs) string {
 // reference run leaves them out ("drop") or replaces them by a render that cannot fail
 // ("raw"), so that it shows what operation i writes when the failure never happened.
 func c10Twin(h hist.History, i int, forceRaw bool, skip map[int]string) (o hist.Obs, ok bool) {
+	mode := ""
+	if forceRaw {
+		mode = "raw"
+	}
+	return c10TwinMode(h, i, mode, skip)
+}
+
+// c10TwinMode: mode "raw" switches NoFormat on just before operation i, "fmt" switches it off.
+func c10TwinMode(h hist.History, i int, mode string, skip map[int]string) (o hist.Obs, ok bool) {
 	var h2 hist.History
 	conv := func(op hist.Op) hist.Op {
 		switch op.Kind {
 		case "render", "rcode", "rplain":
-			op.Flag = false
+			op.Flag, op.WFault = false, ""
 		case "save":
 			op = hist.Op{Kind: "render", F: op.F}
 		}
@@ -1096,8 +1178,11 @@ func c10Twin(h hist.History, i int, forceRaw bool, skip map[int]string) (o hist.
 		h2 = append(h2, conv(op))
 	}
 	last := conv(h[i])
-	if forceRaw {
+	switch mode {
+	case "raw":
 		h2 = append(h2, hist.Op{Kind: "noformat", F: last.F, Flag: true})
+	case "fmt":
+		h2 = append(h2, hist.Op{Kind: "noformat", F: last.F, Flag: false})
 	}
 	h2 = append(h2, last)
 	defer func() {
@@ -1217,6 +1302,13 @@ func c10Judge(h hist.History, info *c10info, got []hist.Obs) string {
 			if _, err := format.Source([]byte(o.Out)); err == nil {
 				return what + "a format error was returned for text that go/format accepts"
 			}
+			if (op.Kind == "render" || isSave) && info.skip == nil {
+				// the text the error quotes is the unformatted source: what an identically built
+				// File writes under NoFormat
+				if raw, ok := c10TwinMode(h, i, "raw", nil); ok && raw.Kind == "write" && !raw.Failed && raw.Out != o.Out {
+					return fmt.Sprintf("%sthe source quoted by the format error is not what an identically built File renders under NoFormat:\n   quoted   %q\n   NoFormat %q", what, o.Out, raw.Out)
+				}
+			}
 			if d := unchanged("rendering failed (format error)"); d != "" {
 				return d
 			}
@@ -1225,8 +1317,17 @@ func c10Judge(h hist.History, info *c10info, got []hist.Obs) string {
 			if isSave {
 				return what + "unexpected observation " + o.String()
 			}
+			shape := op.WFault
+			if shape == "" && op.Flag {
+				shape = "zero-err"
+			}
+			mustFail := c10ShapeFails(shape) // the first Write reports an error
 			if o.Failed {
-				if !op.Flag {
+				if shape == "second-err" && o.Writes >= 2 {
+					// the second call failed and the error came back - but nothing makes a second call necessary
+					return fmt.Sprintf("%sthe output was handed over in %d Write calls (the second one failed): exactly one Write must carry the whole output", what, o.Writes)
+				}
+				if !mustFail {
 					return what + "a writer error was returned although no fault was injected"
 				}
 				if o.Writes != 1 {
@@ -1234,8 +1335,20 @@ func c10Judge(h hist.History, info *c10info, got []hist.Obs) string {
 				}
 				continue
 			}
-			if op.Flag {
-				return fmt.Sprintf("%sthe writer's error was swallowed: the first Write failed (of %d) and nil was returned", what, o.Writes)
+			if mustFail {
+				return fmt.Sprintf("%sthe writer's error was swallowed: the first Write failed (of %d; writer shape %s) and nil was returned", what, o.Writes, shape)
+			}
+			if shape == "short-nil" && len(o.Offered) > 0 {
+				// the writer took only a part of the first call and reported no error (it breaks the
+				// io.Writer contract): nil and io.ErrShortWrite are both acceptable answers; the first
+				// call must have carried the whole output; further calls are allowed only to offer the rest
+				if d := c10Whole(h, i, op, o.Offered[0], info.skip); d != "" {
+					return what + "short write without error: the first Write call: " + d
+				}
+				if o.Writes > 1 && o.Out != o.Offered[0] {
+					return fmt.Sprintf("%sshort write without error: %d Write calls, and what the writer took in them is not the output:\n   took %q\n   want %q", what, o.Writes, o.Out, o.Offered[0])
+				}
+				continue
 			}
 			if o.Writes != 1 {
 				return fmt.Sprintf("%ssuccess with %d Write calls: exactly one Write must carry the whole output", what, o.Writes)
@@ -1292,7 +1405,8 @@ func c10Judge(h hist.History, info *c10info, got []hist.Obs) string {
 // c10Whole: out is the whole rendered output. Ground truth: (1) the same history rendered
 // again, in a fresh World, by the same kind of operation into a buffer (for a save: by
 // File.Render); (2) for File.Render/Save with formatting: go/format applied to what an
-// identically built File renders with NoFormat.
+// identically built File renders with NoFormat; (3) for File.Render/Save with NoFormat: the
+// same File rendered with formatting (its output, or the source its format error quotes).
 func c10Whole(h hist.History, i int, op hist.Op, out string, skip map[int]string) string {
 	tw, ok := c10Twin(h, i, false, skip)
 	if !ok || tw.Kind != "write" || tw.Failed {
@@ -1312,6 +1426,33 @@ func c10Whole(h hist.History, i int, op hist.Op, out string, skip map[int]string
 		}
 		if string(b) != out {
 			return fmt.Sprintf("not go/format of the unformatted rendering:\n   got  %q\n   want %q", out, string(b))
+		}
+	}
+	if (op.Kind == "render" || op.Kind == "save") && noformatAt(h, i, op.F) {
+		return c10RawAgainstFormatted(h, i, out, skip)
+	}
+	return ""
+}
+
+// c10RawAgainstFormatted is ground truth (3) of c10Whole: out is what operation i (File.Render /
+// File.Save of a File with NoFormat) wrote.  The same File rendered WITH formatting does not go
+// through the NoFormat branch.  If it formats, go/format of out is what it writes; if it does
+// not, its format error quotes the unformatted source, which is out byte for byte.
+func c10RawAgainstFormatted(h hist.History, i int, out string, skip map[int]string) string {
+	ft, ok := c10TwinMode(h, i, "fmt", skip)
+	switch {
+	case !ok:
+	case ft.Kind == "write" && !ft.Failed:
+		b, err := format.Source([]byte(out))
+		if err != nil {
+			return fmt.Sprintf("go/format rejects the NoFormat output of a File that renders with formatting (%v):\n   NoFormat output %q\n   formatted       %q", err, out, ft.Out)
+		}
+		if string(b) != ft.Out {
+			return fmt.Sprintf("go/format of the NoFormat output is not what the same File renders with formatting:\n   NoFormat output %q\n   its go/format   %q\n   formatted       %q", out, string(b), ft.Out)
+		}
+	case ft.Kind == "fmterr":
+		if ft.Out != out {
+			return fmt.Sprintf("the NoFormat output is not the unformatted source that the format error of the same File, rendered with formatting, quotes:\n   NoFormat output %q\n   quoted source   %q", out, ft.Out)
 		}
 	}
 	return ""
